@@ -42,7 +42,14 @@ type c04Kind struct {
 	private func(m Mailbox) int // number of messages physically held (-1 unknown)
 }
 
-func c04Less(a, b any) bool { return a.(*c04Msg).prio < b.(*c04Msg).prio }
+func c04Less(a, b any) bool {
+	x, ok1 := a.(*c04Msg)
+	y, ok2 := b.(*c04Msg)
+	if !ok1 || !ok2 { // a corrupted (recycled) context: keep going, the oracle reports it
+		return ok1 && !ok2
+	}
+	return x.prio < y.prio
+}
 
 type c04Op struct {
 	thread string
@@ -380,6 +387,9 @@ func c04Run(t *testing.T, sc c04Scenario, c *vsched.Chooser) (out vsched.Outcome
 		}
 		if s.Deadlock || s.Livelock {
 			v = append(v, vsched.Fail("deadlock-or-livelock/"+k.name, "threads blocked: %v", s.Blocked))
+		}
+		for _, tp := range s.ThreadPanics {
+			v = append(v, vsched.Fail("panic-in-mailbox-operation/"+k.name, "%s", tp))
 		}
 		// ---- drain phase (sequential): whatever is left must come out, from the right mailbox.
 		for bi, b := range boxes {
